@@ -48,8 +48,10 @@ NEW, RUNNABLE, BLOCKED, DONE = 0, 1, 2, 3
 _STATE = {NEW: "new", RUNNABLE: "runnable", BLOCKED: "blocked", DONE: "done"}
 
 
-class BatonFatal(BaseException):
-    """Raised only if ``on_fatal`` returns (it normally ends the process)."""
+class BatonAbort(SystemExit):
+    """Unwinds the main thread after a run was abandoned in place (``on_fatal``
+    returned instead of ending the process).  A SystemExit so that asyncio's
+    Handle._run / Task.__step let it through."""
 
 
 class _Rec:
@@ -91,6 +93,7 @@ class Baton:
         self.preempts = 0  # ... where the tape did not pick the default
         self.switches = 0  # baton actually changed hands
         self.trail = []  # (kind, arg, from, to, eligible)
+        self.dead = False  # run abandoned in place: primitives are inert
         self.tracer = None
 
     # -- threads -------------------------------------------------------------
@@ -141,6 +144,8 @@ class Baton:
     def block(self, pred, kind, idle_ok=False):
         """Wait until ``pred()`` holds.  Returns True if resumed as *idle*
         (only with idle_ok: nobody else could run and pred still fails)."""
+        if self.dead:
+            return False
         me = self.cur
         me.state = BLOCKED
         me.pred = pred
@@ -157,12 +162,27 @@ class Baton:
         return [(t.name, _STATE[t.state], t.where) for t in self.threads]
 
     def fatal(self, kind, detail=""):
+        """Deadlock / cap.  ``on_fatal`` takes the verdict; it either ends the process or
+        returns, in which case the run is abandoned *in place*: the scheduler goes dead
+        (every primitive becomes a non-blocking no-op), the main thread is unwound with
+        BatonAbort, and every other thread of the run stays parked on its private lock
+        for ever - inert until the process ends."""
         self.log.ev("fatal", kind, detail)
         if self.on_fatal is not None:
             self.on_fatal(kind, detail)
-        raise BatonFatal(kind)
+        self.dead = True
+        me = self.cur
+        main = self.threads[0]
+        if me is main:
+            raise BatonAbort(kind)
+        self.cur = main
+        main.lock.release()
+        me.lock.acquire()  # never released
+        raise BatonAbort(kind)  # pragma: no cover
 
     def _decide(self, me, kind, arg):
+        if self.dead:
+            return
         self.steps += 1
         if self.steps > self.max_steps:
             self.fatal("step_cap", kind)
@@ -220,6 +240,9 @@ class Baton:
         nxt.lock.release()
         if not done:
             me.lock.acquire()
+            if self.dead:
+                # woken by the thread that abandoned the run (only the main thread is)
+                raise BatonAbort("abandoned")
 
     def trail_text(self, n=40):
         names = [t.name for t in self.threads]
@@ -615,8 +638,14 @@ def line_tracer(sched, suffixes):
 #       scenarios back to back; it is thrown away (and a new one forked on demand) as
 #       soon as a run ends *dirty* (verdict delivered from a fatal path, by a thread
 #       other than the main one, with ``clean=False``, or any exception in the harness)
-#       or after ``max_runs`` clean runs.  Parked threads therefore still die with their
+#       or after ``max_runs`` runs.  Parked threads therefore still die with their
 #       process, but the fork (5-300 ms on a loaded box, and not parallel) is amortised.
+#       A run that ends in a deadlock / cap / with a thread still parked may instead be
+#       *abandoned in place* (ChildResult.can_leak, at most ``max_leaky`` times per
+#       child): its scheduler goes dead, the main thread unwinds, the other threads of
+#       that run stay parked on private locks nobody will ever release (inert), and the
+#       child serves on.  Without this a planted bug that deadlocks most runs costs one
+#       fork per run.
 #   VERIF_THREADS_FORK=each             one child per scenario; ``run(..., fresh=True)``
 #       (used for replays) does that whatever the mode.
 #
@@ -656,19 +685,29 @@ def _frame(obj):
 class ChildResult:
     """Lets any thread of the child deliver the run's result exactly once."""
 
-    def __init__(self, wfd, reuse=False):
+    def __init__(self, wfd, reuse=False, leak_ok=False):
         self.wfd = wfd
         self.reuse = reuse
         self.sent = False
+        self.leak_ok = leak_ok
+        self.leaked = False
         self.main_ident = _thread.get_ident()
 
-    def send(self, obj, clean=True):
+    def can_leak(self):
+        """May this run be abandoned in place (parked threads left behind, inert) instead
+        of costing a process?  Only in a reused child and only a bounded number of times."""
+        return self.reuse and self.leak_ok
+
+    def send(self, obj, clean=True, leaked=False):
         if self.sent:  # pragma: no cover - a second thread after the verdict
             os._exit(0)
         self.sent = True
         if not self.reuse:
             _write_all(self.wfd, json.dumps(obj).encode())
             os._exit(0)
+        if leaked and self.leak_ok:
+            self.leaked = True
+            clean = True
         keep = bool(clean) and _thread.get_ident() == self.main_ident
         _write_all(self.wfd, _frame({"r": obj, "more": keep}))
         if not keep:
@@ -748,10 +787,11 @@ class ForkRunner:
     """``handler(request, result)`` runs one scenario in a child process and calls
     ``result.send(verdict, clean=...)``.  ``run(request)`` returns the verdict."""
 
-    def __init__(self, handler, wall=30.0, max_runs=250):
+    def __init__(self, handler, wall=30.0, max_runs=250, max_leaky=40):
         self.handler = handler
         self.wall = wall
         self.max_runs = max_runs
+        self.max_leaky = max_leaky  # abandoned-in-place runs one child may accumulate
         self.owner = None
         self.pid = None
         self.rfd = self.wfd = None
@@ -827,6 +867,7 @@ class ForkRunner:
         gc.disable()
         buf = b""
         n = 0
+        leaks = 0
         while True:
             while len(buf) < 4 or len(buf) < 4 + int.from_bytes(buf[:4], "big"):
                 b = os.read(rfd, 1 << 16)
@@ -838,9 +879,11 @@ class ForkRunner:
             buf = buf[4 + ln:]
             n += 1
             last = n >= self.max_runs
-            res = ChildResult(wfd, reuse=True)
+            res = ChildResult(wfd, reuse=True, leak_ok=leaks < self.max_leaky)
             try:
                 self.handler(request, res)
+                if res.leaked:
+                    leaks += 1
                 if not res.sent:
                     res.send({"harness_error": "child function returned without a result"},
                              clean=False)
